@@ -179,6 +179,7 @@ func (hasher *PathHasher) hash(path string, store, read, timestamp bool) ([]byte
 		}
 	}
 	h := hasher.new()
+	isDir := false
 	info, err := os.Lstat(path)
 	if err == nil && info.Mode()&os.ModeSymlink != 0 {
 		// Handle symlinks specially (don't attempt to read their contents).
@@ -187,8 +188,6 @@ func (hasher *PathHasher) hash(path string, store, read, timestamp bool) ([]byte
 			return nil, err
 		}
 		// Write something arbitrary indicating this is a symlink.
-		// This isn't quite perfect - it could potentially get mixed up with a file with the
-		// appropriate contents, but that is not really likely.
 		h.Write(boolTrueHashValue)
 		if rel := hasher.ensureRelative(dest); (rel != dest || !filepath.IsAbs(dest)) && !filepath.IsAbs(path) {
 			// Inside the root of our repo so it's something we manage - just hash its (relative) destination
@@ -198,9 +197,28 @@ func (hasher *PathHasher) hash(path string, store, read, timestamp bool) ([]byte
 			err := hasher.fileHash(h, path)
 			return h.Sum(nil), err
 		}
-		return h.Sum(nil), nil
+		return notAFile(h.Sum(nil)), nil
 	} else if err == nil && info.IsDir() {
+		isDir = true
 		err = WalkMode(path, func(p string, mode Mode) error {
+			// Every entry contributes its kind and its name relative to the directory being hashed,
+			// so renaming, moving, adding or removing entries (including empty directories) or
+			// changing the kind of one alters the hash, not just changes to file contents.
+			rel, err := filepath.Rel(path, p)
+			if err != nil {
+				return err
+			} else if rel == "." {
+				return nil
+			}
+			if mode.IsSymlink() {
+				h.Write([]byte{'l'})
+			} else if mode.IsDir() {
+				h.Write([]byte{'d'})
+			} else {
+				h.Write([]byte{'f'})
+			}
+			h.Write([]byte(rel))
+			h.Write([]byte{0})
 			if mode.IsSymlink() {
 				// Is a symlink, must verify that it's not absolute.
 				deref, err := os.Readlink(p)
@@ -216,8 +234,17 @@ func (hasher *PathHasher) hash(path string, store, read, timestamp bool) ([]byte
 				// Just write something to the hash indicating that we found something here,
 				// otherwise rules might be marked as unchanged if they added additional symlinks.
 				h.Write(boolTrueHashValue)
+				// The target itself is part of the tree's identity though.
+				h.Write([]byte(deref))
+				h.Write([]byte{0})
 			} else if !mode.IsDir() {
-				return hasher.fileHash(h, p)
+				// Hash each file separately & write its fixed-size digest so that content
+				// cannot shift between adjacent files (or masquerade as entry names).
+				fh := hasher.new()
+				if err := hasher.fileHash(fh, p); err != nil {
+					return err
+				}
+				h.Write(fh.Sum(nil))
 			}
 			return nil
 		})
@@ -229,12 +256,26 @@ func (hasher *PathHasher) hash(path string, store, read, timestamp bool) ([]byte
 		}
 	}
 	hash := h.Sum(nil)
+	if isDir {
+		hash = notAFile(hash)
+	}
 	if err != nil {
 		return hash, err
 	} else if store && hasher.useXattrs {
 		hasher.storeHash(path, hash)
 	}
 	return hash, err
+}
+
+// notAFile complements a digest computed for a directory or symlink. A regular file always hashes
+// to the plain digest of its contents, so this guarantees that no file whose contents happen to
+// match what we fed the hash for a directory or symlink (e.g. an empty file vs. an empty directory)
+// can share its hash, short of a preimage attack on the hash function.
+func notAFile(hash []byte) []byte {
+	for i := range hash {
+		hash[i] = ^hash[i]
+	}
+	return hash
 }
 
 // storeHash stores the hash of a file on it as an xattr.
